@@ -236,6 +236,8 @@ def run(tier):
                 "non-trivial = optimise calls in which at least one rule fired")
     rep.assumptions = ["numpy optimisation list (SkipReshape, SkipTranspose, SkipBroadcastTo, SkipConcatenate, InlineGraph, SkipCast)",
                        "SkipCast / InlineGraph firings are accepted as such (their soundness is covered end-to-end by C01 and C04)"]
+    import suite
+    sh = suite.start()       # the repository's own tests run under the optimiser recorder while the rest of the check works
     rank = 4 if tier == "quick" else 5
     shapes = [(2,), (2, 3), (2, 2), (2, 3, 4), (2, 2, 2), (3, 2, 3), (2, 3, 2, 3), (2, 2, 2, 2)] + ([(2, 3, 4, 5), (2, 2, 2, 2, 2)] if tier == "thorough" else [])
     d = common.workdir("c05")
@@ -278,6 +280,10 @@ def run(tier):
     for rr in common.parallel_map("real_calls_chunk", sys.modules[__name__], items):
         recs.extend(rr)
         rep.evaluations += 3
+    # every optimise call the repository's own test suite performs is validated as well (the tests assert shapes only)
+    srecs = suite.finish(sh, rep, "opt")
+    rep.extra["optimise_calls_recorded_from_repository_tests"] = len(srecs)
+    recs.extend(srecs)
     ok, bad = validate(rep, recs, rank)
     rep.validated += ok
     fired = {}
